@@ -712,6 +712,17 @@ def gen_sink_cases(rng, tier, n, combs=None):
                                            random_res_script(rng, 2, 3, 0)]]
                             c["src"] = "lazy-init-sweep"
                             cases.append(c)
+    if "lazy" in combs:
+        # both tiers: the freshly initialised inner sink answers Pending to its first poll_ready
+        # (once or twice) while LazySink still holds the first item, for every initializer delay
+        for pends in range(4):
+            for first_pend in (1, 2):
+                for ln in (1, 2, 3):
+                    c = gen_sink_base(rng, "lazy", ln)
+                    c["init_pends"], c["init_ok"] = pends, True
+                    c["downs"] = [[[1] * first_pend, [], [rng.below(2)], [rng.below(2)]]]
+                    c["src"] = "lazy-first-ready-pend"
+                    cases.append(c)
     per = max(4, n // len(combs)) if tier == "quick" else max(4, n // (len(combs) * 6))
     for comb in combs:
         for _ in range(per):
